@@ -182,6 +182,12 @@ func checkC01(p *Prog, r *Report) {
 	approvalCleanupRule(p, r, "R10")
 	r.Rule("R11", "a write that waits for approval is answered once: whoever removes the pending entry and then answers (verdict or timeout) claims it — the comma-ok look-up and the delete share one critical section and every answer is sent only on the found edge (shared with C12-R2)")
 	claimRule(p, lsC01, ib, r, "R11")
+	r.Rule("R14", "bookkeeping of one write never touches another write of the same peer: a function that addresses the per-peer approval maps by message counter deletes only at the counter level (shared with C12-R7) — otherwise a unanimously approved write is answered with the timeout error")
+	perWriteBookkeepingRule(p, lsC01, r, "R14", F("FeatureLocal.writeApprovalReceived"), F("FeatureLocal.pendingWriteApprovals"))
+	r.Rule("R13", "the function a message is dispatched under is the function of the payload it carries: CmdType.Data derives the function from the tag of the field whose value it returns, never from the command's own function element (which builders leave empty for filtered reads) — otherwise a filtered read is answered with an error result instead of the reply (shared with C18-R7d)")
+	cmdDataSameField(p, r, "R13")
+	r.Rule("R15", "the command builders of the function-data object (read, reply, notify/write) are free of side effects: they assign no field of the object — a reply built once and kept is stale after the next data change")
+	c01PureBuilders(p, r, "R15")
 	r.Rule("R12", "a read is answered on a server and on a special feature and rejected on a client feature: truth table of the role tests in front of the Reply of the generic read handler over role ∈ {client, server, special}")
 	c01ReadRoleTable(p, ib, r, "R12")
 	r.Rule("R8", "the destination look-up decides 'exists' by equality of whole addresses: every hand-written element-wise comparison of two slices compares their lengths for equality (shared lint, C20-R6)")
@@ -667,4 +673,48 @@ func c01ResultNumber(p *Prog, ib *inbound, r *Report) {
 	if n < 2 {
 		r.Undecided("R4", "result-builder|error-number", "", fmt.Sprintf("%d stores of the result's error number under a test of the error parameter found, 2 expected (error branch and success branch)", n))
 	}
+}
+
+// c01PureBuilders: ReadCmdType, ReplyCmdType and NotifyOrWriteCmdType of every implementation of
+// api.FunctionDataCmdInterface (and their helpers) store into no field of the receiver.
+func c01PureBuilders(p *Prog, r *Report, rule string) {
+	iface := p.LookupIface("api", "FunctionDataCmdInterface")
+	if iface == nil {
+		r.Undecided(rule, "anchor:api.FunctionDataCmdInterface", "", "interface not found")
+		return
+	}
+	n := 0
+	seen := map[string]bool{}
+	for _, fn := range p.RepoFns("spine") {
+		if fn.Signature.Recv() == nil || fn.Blocks == nil || !implementsIface(fn.Signature.Recv().Type(), iface) {
+			continue
+		}
+		switch originName(fn) {
+		case "ReadCmdType", "ReplyCmdType", "NotifyOrWriteCmdType":
+		default:
+			continue
+		}
+		base := FnName(originOf(fn))
+		if seen[base] {
+			continue // one instantiation of the generic body is enough
+		}
+		seen[base] = true
+		n++
+		var bad []string
+		p.InScope(fn, func() {
+			for _, body := range p.ScopeFns(fn) {
+				for _, b := range body.Blocks {
+					for _, ins := range b.Instrs {
+						if st, ok := ins.(*ssa.Store); ok {
+							if fa, ok := st.Addr.(*ssa.FieldAddr); ok && strings.HasPrefix(Path(fa), "recv.") {
+								bad = append(bad, fmt.Sprintf("assigns %s at %s", Path(fa), p.InstrPos(st)))
+							}
+						}
+					}
+				}
+			}
+		})
+		r.Check(rule, base+"|no-side-effect", len(bad) == 0, p.Pos(fn.Pos()), fmt.Sprintf("the builder assigns no field of the function-data object: %v", bad))
+	}
+	r.Floor(rule, "command builders", n, 3)
 }
